@@ -47,13 +47,17 @@ def load_corpus() -> List[dict]:
             if os.path.exists(meta_p) and os.path.exists(patch_p):
                 meta = json.load(open(meta_p))
                 if meta.get("kind") == "benign":
+                    # (a behaviour-preserving change the checks are known to report all the same is listed as such -- `alarm-limit` --
+                    # never dropped: DESIGN.md says which constructs they are)
                     out.append({"id": "seeded-" + name, "property": meta["exercises_property"], "what": "independent benign refactor",
-                                "expect": "silent", "edits": [], "patch": patch_p, "check": meta.get("check_properties")})
+                                "expect": "alarm-limit" if meta.get("expected_silent") is False else "silent", "edits": [], "patch": patch_p,
+                                "check": meta.get("check_properties")})
                     if out[-1]["check"] is None:
                         out[-1]["check"] = ["C%02d" % i for i in range(1, 21)]
                 else:
                     out.append({"id": "seeded-" + name, "property": meta["breaks_property"], "what": meta.get("needs_to_manifest", ""),
-                                "expect": "fire" if meta.get("expected_detected", True) else "limit", "edits": [], "patch": patch_p})
+                                "expect": "fire" if meta.get("expected_detected", True) else "limit", "edits": [], "patch": patch_p,
+                                "accept_analysis_error": bool(meta.get("accept_analysis_error"))})
     ids = [v["id"] for v in out]
     assert len(ids) == len(set(ids)), "duplicate variant ids"
     return out
@@ -147,6 +151,8 @@ def run_variant(args) -> dict:
         elif variant["expect"] == "limit":
             # a property-breaking change that is known to be out of reach of the structural rules
             res["status"] = "limit-detected" if any_fire else "limit-undetected"
+        elif variant["expect"] == "alarm-limit":
+            res["status"] = "limit-alarm" if (any_fire or any_err) else "limit-alarm-gone"
         else:
             res["status"] = "silent" if not (any_fire or any_err) else "FALSE-ALARM"
     except SyntaxError as serr:
